@@ -38,6 +38,7 @@ CONSTANTS NK,        \* keys are 1..NK (as ranks in the documented key order); R
           Remotes,   \* remotes that may sync (AG); the consumer "L" is linked from the start
           Mode,      \* "rt" | "ag" | "comp"
           Ghost,     \* maintain P's ghost state
+          Watched,   \* ... for these consumers (P is per consumer: watching them one at a time is as good)
           MaxLag     \* with Ghost: no subscriber lags more than MaxLag lane writes behind (state constraint LagBound)
 
 Keys == 1..NK
@@ -115,7 +116,7 @@ RtOut(q) == IF QEmpty(q) THEN [op |-> "none", key |-> NoKey, v |-> 0]
 RtPoppedQ(q) == IF QEmpty(q) THEN q ELSE QPopped(q)
 
 \* ghost
-GObs(pp, c, out) == IF Ghost /\ out.op # "none" THEN PObs(pp, c, out.op, out.key.c, out.v) ELSE pp
+GObs(pp, c, out) == IF Ghost /\ c \in Watched /\ out.op # "none" THEN PObs(pp, c, out.op, out.key.c, out.v) ELSE pp
 
 RtPush(op, t, v) ==
     /\ Mode = "rt"
@@ -195,7 +196,7 @@ LaneSync(r) ==
     /\ \A i \in DOMAIN syncqs : syncqs[i].id # r        \* bound: one sync at a time per remote
     /\ syncqs' = Append(syncqs, [id |-> r, keys |-> PSorted(Present)])
     /\ linked' = linked \cup {r}
-    /\ p' = IF Ghost /\ r \notin linked THEN PLink(p, r) ELSE p
+    /\ p' = IF Ghost /\ r \in Watched /\ r \notin linked THEN PLink(p, r) ELSE p
     /\ lastAct' = [k |-> "sync", id |-> r, keys |-> PSorted(Present), empty |-> FALSE]
     /\ UNCHANGED <<content, evq, nextSel, syncIdx, rq>>
 
@@ -267,7 +268,7 @@ AgPop ==
                            IF c \in rc THEN RtPushed(rq[c], out.op, [c |-> out.key, a |-> 1], out.v) ELSE rq[c]]
                /\ p' = p
           ELSE /\ rq' = rq
-               /\ p' = IF Ghost THEN GObsAll(p, rc, out) ELSE p
+               /\ p' = IF Ghost THEN GObsAll(p, rc \cap Watched, out) ELSE p
        /\ lastAct' = [k |-> "agpop", out |-> out, empty |-> WqEmpty(r.st.evq, r.st.syncqs)]
     /\ UNCHANGED <<content, linked>>
 
@@ -277,18 +278,26 @@ Init ==
     /\ evq = EmptyQ /\ syncqs = << >> /\ nextSel = "event" /\ syncIdx = 0
     /\ linked = {}
     /\ rq = [c \in Consumers |-> EmptyQ]
-    /\ p = PInit(Keys, Consumers, {"L"})
+    /\ p = PInit(Keys, Watched, {"L"} \cap Watched)
     /\ lastAct = [k |-> "init"]
 
+\* (the leading conjunct only gives each case its own name in TLC's coverage report)
+RtPushUpd(t, v) == Mode = "rt" /\ RtPush("upd", t, v)
+RtPushRem(t) == Mode = "rt" /\ RtPush("rem", t, 0)
+RtPushClr == Mode = "rt" /\ RtPush("clr", NoKey, 0)
+LaneDrop(n) == Mode # "rt" /\ LaneDropOrTake("drop", n)
+LaneTake(n) == Mode # "rt" /\ LaneDropOrTake("take", n)
+
 Next ==
-    \/ \E t \in Texts, v \in Vals : RtPush("upd", t, v)
-    \/ \E t \in Texts : RtPush("rem", t, 0)
-    \/ RtPush("clr", NoKey, 0)
+    \/ \E t \in Texts, v \in Vals : RtPushUpd(t, v)
+    \/ \E t \in Texts : RtPushRem(t)
+    \/ RtPushClr
     \/ \E c \in Consumers : RtPop(c)
     \/ \E c \in Keys, v \in Vals : LaneUpdate(c, v)
     \/ \E c \in Keys : LaneRemove(c)
     \/ LaneClear
-    \/ \E kind \in {"drop", "take"}, n \in 0..NK : LaneDropOrTake(kind, n)
+    \/ \E n \in 0..NK : LaneDrop(n)
+    \/ \E n \in 0..NK : LaneTake(n)
     \/ \E r \in Remotes : LaneSync(r)
     \/ AgPop
 
@@ -347,7 +356,7 @@ Drained(c) ==
     /\ QEmpty(rq[c])
 
 \* ... then its replica is the lane's map
-Converged == Ghost => \A c \in Consumers : Drained(c) => PConverged(p, c)
+Converged == Ghost => \A c \in Watched : Drained(c) => PConverged(p, c)
 
 \* the lane of P and the lane of M are the same map
 RefIsContent == (Ghost /\ Mode # "rt") => p.ref = content
